@@ -103,6 +103,8 @@ Proof.
     cbn [strict_type]. rewrite (IHp _ _ eq_refl G). rw_hyps. reflexivity.
   - (* PFilter *) open_sub p; try discriminate H. dm H. inversion H; subst. use_elab.
     cbn [strict_type]. rewrite (IHp _ _ eq_refl G). cbn [ir_type]. rw_hyps. cbn [ty_eqb]. reflexivity.
+  - (* POrderBy *) open_sub p; try discriminate H. dm H. inversion H; subst.
+    cbn [strict_type]. rewrite (IHp _ _ eq_refl G). rw_hyps. reflexivity.
   - (* PAnnotateIdx *)
     apply andb_true_iff in G. destruct G as [G1 G2].
     open_sub p1; try discriminate H. open_sub p2; try discriminate H.
@@ -193,6 +195,12 @@ Example example_interval_lookup :
   /\ simple_interval_keys p = true
   /\ option_map strict_type (emitted p) = Some (reported p).
 Proof. vm_compute. repeat split. Qed.
+
+(* hl.utils.range_table(n).order_by('idx') : the front end reports an UNKEYED table, as the engine types TableOrderBy *)
+Example example_order_by :
+  telab (POrderBy PRange [(IDX, true)]) = Some (RT (TT [] [(IDX, TI32)] []), TableOrderBy TableRange [(IDX, true)])
+  /\ strict_type (TableOrderBy TableRange [(IDX, true)]) = Some (RT (TT [] [(IDX, TI32)] [])).
+Proof. split; reflexivity. Qed.
 
 (* REFUTED (1): mt = hl.utils.range_matrix_table(n, m); mt.annotate_rows(c = r2.index(mt.row_idx)) with r2 keyed by
    (interval<int32>, int32): the front end accepts (is_interval only looks at the FIRST key field) and emits
